@@ -307,9 +307,11 @@ func runScalars(raw json.RawMessage, seed int64, rec *Rec) {
 		client := connect.NewClient[BV, BV](fake, "http://verif.test/verif.v1.Svc/M", clientProtoOpts(s.Proto)...)
 		t0 := time.Now()
 		ctx, cancel := context.WithDeadline(context.Background(), t0.Add(time.Duration(s.Secs)*time.Second))
+		var before time.Time // just before the operation that makes the library send the request
 		if s.Used == "bidi" {
 			bs := client.CallBidiStream(ctx)
 			time.Sleep(time.Duration(s.D) * time.Millisecond)
+			before = time.Now()
 			_ = bs.Send(&BV{})
 			_ = bs.CloseRequest()
 			_, _ = bs.Receive()
@@ -317,6 +319,7 @@ func runScalars(raw json.RawMessage, seed int64, rec *Rec) {
 		} else {
 			cs := client.CallClientStream(ctx)
 			time.Sleep(time.Duration(s.D) * time.Millisecond)
+			before = time.Now()
 			_ = cs.Send(&BV{})
 			_, _ = cs.CloseAndReceive()
 		}
@@ -334,7 +337,9 @@ func runScalars(raw json.RawMessage, seed int64, rec *Rec) {
 		for _, r := range val {
 			chars = append(chars, string(r))
 		}
-		rec.Add(E("result", "chars", chars, "present", val != "", "waited_ms", at.Sub(t0).Milliseconds()))
+		// (before_ms rounds down, waited_ms up: the header was computed between the two instants)
+		rec.Add(E("result", "chars", chars, "present", val != "", "before_ms", before.Sub(t0).Milliseconds(),
+			"waited_ms", at.Sub(t0).Milliseconds()+1))
 	case "handler_ctx":
 		// the handler's context ends on the server side alone (a deadline conveyed in the timeout header by a peer that
 		// does not enforce it itself, or the server cancelling the request) and the handler returns ctx.Err() as is: the
@@ -382,9 +387,11 @@ func runScalars(raw json.RawMessage, seed int64, rec *Rec) {
 					r.Header.Set("Grpc-Timeout", "60m")
 				}
 				if s.Text == "early" {
-					// the deadline has passed before the library gets to call the handler function
+					// the deadline has passed before the library gets to call the handler function: the request body
+					// takes longer to arrive than the timeout allows
 					r.Header.Set("Connect-Timeout-Ms", "1")
 					r.Header.Set("Grpc-Timeout", "1m")
+					r.Body = &slowBody{ReadCloser: r.Body, wait: 40 * time.Millisecond}
 				}
 				h.ServeHTTP(w, r)
 			default:
@@ -768,3 +775,15 @@ func (b *lateBody) Read([]byte) (int, error) {
 	return 0, io.EOF
 }
 func (b *lateBody) Close() error { b.closed.Store(true); return nil }
+
+// slowBody delays its first Read.
+type slowBody struct {
+	io.ReadCloser
+	wait time.Duration
+	once sync.Once
+}
+
+func (b *slowBody) Read(p []byte) (int, error) {
+	b.once.Do(func() { time.Sleep(b.wait) })
+	return b.ReadCloser.Read(p)
+}
